@@ -234,9 +234,153 @@ fn check_serialise(ctx: &Ctx, case: &CaseId, key: &rcgen::KeyPair, kind: StrKind
 	true
 }
 
+/// is `bytes` a well-formed value of the string type with universal tag `tag`?
+fn wellformed(tag: u32, bytes: &[u8]) -> bool {
+	match tag {
+		0x1e => bytes.len() % 2 == 0 && utf16_ok(&bytes.chunks(2).map(|c| u16::from_be_bytes([c[0], c[1]])).collect::<Vec<_>>()),
+		0x1c => bytes.len() % 4 == 0 && bytes.chunks(4).all(|c| char::from_u32(u32::from_be_bytes([c[0], c[1], c[2], c[3]])).is_some()),
+		0x13 => bytes.iter().all(|b| StrKind::Printable.admits(*b as char)),
+		0x16 => bytes.iter().all(|b| *b < 0x80),
+		0x14 => bytes.iter().all(|b| StrKind::Teletex.admits(*b as char)),
+		0x0c => std::str::from_utf8(bytes).is_ok(),
+		_ => false,
+	}
+}
+
+/// The string types are also constructed by the *import* path (names of foreign CA certificates).
+/// A certificate whose O attribute is replaced by arbitrary content octets under each string tag is
+/// imported: what is admitted must be a well-formed value of that type, stored octet for octet,
+/// and must be written back octet for octet.
+#[cfg(not(miri))]
+fn imported_strings(ctx: &Ctx, key: &rcgen::KeyPair) {
+	use crate::mutate::{self, Body, Node};
+	use crate::util::Rng;
+	const PLACEHOLDER: &[u8] = b"placeholder-xyz";
+	let mut p = CertificateParams::default();
+	p.is_ca = rcgen::IsCa::Ca(rcgen::BasicConstraints::Unconstrained);
+	let mut dn = DistinguishedName::new();
+	dn.push(DnType::OrganizationName, "placeholder-xyz");
+	dn.push(DnType::CommonName, "c13 import");
+	p.distinguished_name = dn;
+	let base = match crate::guard(|| p.self_signed(key)) {
+		Ok(Ok(c)) => c.der().to_vec(),
+		other => return ctx.violation("c13:issuer-setup", &CaseId::new("imported-strings", 0, 0), "base CA", &format!("{:?}", other.map(|r| r.map(|_| ()).map_err(|e| e.to_string())))),
+	};
+	fn patch(nodes: &mut [Node], tag: u8, bytes: &[u8], placeholder: &[u8]) -> u32 {
+		let mut n = 0;
+		for nd in nodes.iter_mut() {
+			match &mut nd.body {
+				Body::Prim(b) if b.as_slice() == placeholder => {
+					nd.id = vec![tag];
+					*b = bytes.to_vec();
+					n += 1;
+				},
+				Body::Cons(kids) | Body::Encap(_, kids) => n += patch(kids, tag, bytes, placeholder),
+				_ => {},
+			}
+		}
+		n
+	}
+	let tags: [u8; 6] = [0x1e, 0x1c, 0x13, 0x16, 0x14, 0x0c];
+	let n = ctx.scale(6_000, 200_000);
+	par_for(n, ctx.threads, |i| {
+		let case = CaseId::new("imported-strings", ctx.seed, i);
+		if let Some(r) = &ctx.replay {
+			if r.index != i {
+				return;
+			}
+		}
+		let mut rng = Rng::derive(ctx.seed, "c13-import", i);
+		let tag = tags[(i % 6) as usize];
+		let directed: [&[u8]; 12] = [
+			&[0x00, 0x41, 0x00, 0x42, 0x43],
+			&[0xd8, 0x00],
+			&[0xd8, 0x3d, 0xde, 0x00],
+			&[0xff, 0xff],
+			&[0x00],
+			&[],
+			&[0x00, 0x00, 0x00, 0x41],
+			&[0x00, 0x11, 0x00, 0x00],
+			&[0x00, 0x00, 0xd8, 0x00],
+			&[0x00, 0x00, 0x00, 0x41, 0x00],
+			&[0xe9],
+			&[0xc3, 0xa9],
+		];
+		let bytes: Vec<u8> = if i / 6 < directed.len() as u64 {
+			directed[(i / 6) as usize].to_vec()
+		} else {
+			let len = rng.below(10) as usize;
+			(0..len)
+				.map(|_| match rng.below(6) {
+					0 => 0,
+					1 => 0x41 + rng.below(26) as u8,
+					2 => 0xd8 + rng.below(8) as u8,
+					3 => 0xff,
+					4 => rng.below(0x80) as u8,
+					_ => rng.below(256) as u8,
+				})
+				.collect()
+		};
+		let mut tree = match mutate::parse_tree(&base, 0) {
+			Some(t) => t,
+			None => return ctx.inconclusive("cannot parse the base certificate into a TLV tree"),
+		};
+		if patch(&mut tree, tag, &bytes, PLACEHOLDER) != 2 {
+			// subject and issuer of the self-signed base
+			return ctx.inconclusive("placeholder attribute not found twice in the base certificate");
+		}
+		let der = mutate::serialise(&tree);
+		let ok_model = wellformed(tag as u32, &bytes);
+		let label = format!("foreign CA whose O attribute is tag {:#04x} with content {}", tag, hex(&bytes));
+		ctx.count("eval:imported_strings");
+		ctx.distinct(fnv64(label.as_bytes()));
+		let cd = pki_types::CertificateDer::from(der);
+		let r = crate::guard(|| rcgen::CertificateParams::from_ca_cert_der(&cd).map_err(|e| e.to_string()));
+		match r {
+			Err(pn) => ctx.violation("c13:import-panic", &case, &label, &pn),
+			Ok(Err(_)) => ctx.count(if ok_model { "outcome:import:refused-wellformed" } else { "outcome:import:refused-malformed" }),
+			Ok(Ok(imp)) => {
+				ctx.count("outcome:import:accepted");
+				if !ok_model {
+					return ctx.violation(&format!("c13:import-admits:{:#04x}", tag), &case, &label, &format!("the import admits an ill-formed value: {:?}", imp.distinguished_name));
+				}
+				let stored: Option<(u32, Vec<u8>)> = imp.distinguished_name.get(&DnType::OrganizationName).map(|v| match v {
+					rcgen::DnValue::BmpString(s) => (0x1e, s.as_bytes().to_vec()),
+					rcgen::DnValue::UniversalString(s) => (0x1c, s.as_bytes().to_vec()),
+					rcgen::DnValue::PrintableString(s) => (0x13, s.as_str().as_bytes().to_vec()),
+					rcgen::DnValue::Ia5String(s) => (0x16, s.as_str().as_bytes().to_vec()),
+					rcgen::DnValue::TeletexString(s) => (0x14, s.as_str().as_bytes().to_vec()),
+					rcgen::DnValue::Utf8String(s) => (0x0c, s.as_bytes().to_vec()),
+					_ => (0, vec![]),
+				});
+				if stored != Some((tag as u32, bytes.clone())) {
+					return ctx.violation("c13:import-stored-bytes", &case, &label, &format!("stored as {:?}", stored.map(|(t, b): (u32, Vec<u8>)| (t, hex(&b)))));
+				}
+				match crate::guard(|| imp.self_signed(key).map_err(|e| e.to_string())) {
+					Err(pn) => ctx.violation("c13:serialise-panic:import", &case, &label, &pn),
+					Ok(Err(e)) => ctx.violation("c13:serialise-error:import", &case, &label, &e),
+					Ok(Ok(c)) => match x509::parse_certificate(c.der()) {
+						Err(e) => ctx.violation("c13:undecodable:import", &case, &label, &e),
+						Ok(v) => {
+							let atvs = v.subject.flat();
+							if !atvs.iter().any(|a| a.tag == tag as u32 && a.bytes == bytes) {
+								ctx.violation("c13:roundtrip:import", &case, &label, &format!("written back as {:?}", atvs.iter().map(|a| (a.tag, hex(&a.bytes))).collect::<Vec<_>>()));
+							}
+						},
+					},
+				}
+			},
+		}
+	});
+}
+
 pub fn run(ctx: &Ctx) {
 	let key = crate::any_key();
 	let miri = cfg!(miri);
+	#[cfg(not(miri))]
+	if ctx.replay.as_ref().map_or(true, |r| r.workload == "imported-strings") {
+		imported_strings(ctx, &key);
+	}
 
 	// --- 1. every Unicode scalar value as a one-character string, every type, every constructor
 	let do_scalars = ctx.replay.as_ref().map_or(true, |r| r.workload == "scalars");
